@@ -240,7 +240,18 @@ static void op_reinit_config(actx *c)
     vd_cfg n = c->cfg; config_t *cf; int rv;
     drop_iters(c);
     if (c->st == ST_STARTED) return;
-    n.cmn = VH_PICK(c->r, ((const char *[]){ "live", "batch", "none" })); n.compallsen = (int)vh_below(c->r, 2);
+    n.cmn = VH_PICK(c->r, ((const char *[]){ "live", "batch", "none" }));
+    if (vh_chance(c->r, 0.5)) {
+        /* decoder_reinit_feat with a NEW configuration object (consumed by the decoder): only the front end and the feature module are
+         * rebuilt, the grammar, the search and the acoustic model stay and go on being used -- with whatever they remember of the
+         * configuration they were created from */
+        cf = vd_make_config(&n);
+        vh_ctx("decoder_reinit_feat"); rv = decoder_reinit_feat(c->d, cf); LOG(c, "reinit_feat(new config cmn=%s)=%d ", n.cmn, rv);
+        expect(c, rv == 0, "reinit_feat_with_new_config_fails", "decoder_reinit_feat with a valid new configuration returned %d", rv);
+        if (rv == 0) { c->cfg = n; vh_count("reinit_feat_with_new_config", 1); }
+        return;
+    }
+    n.compallsen = (int)vh_below(c->r, 2);
     cf = vd_make_config(&n);
     vh_ctx("decoder_reinit"); rv = decoder_reinit(c->d, cf); LOG(c, "reinit(new config cmn=%s compallsen=%d)=%d ", n.cmn, n.compallsen, rv);
     expect(c, rv == 0, "reinit_with_new_config_fails", "decoder_reinit with a valid new configuration returned %d", rv);
@@ -381,7 +392,7 @@ static void run(long i, vh_rng *r)
             if (u < 0.55) op_process(&c); else if (u < 0.85) op_query(&c); else if (u < 0.93 || c.off >= c.au.n) op_end(&c); else op_standalone(&c);
         } else {
             if (!c.have_gram) { if (u < 0.7) op_grammar(&c); else if (u < 0.8) op_query(&c); else if (u < 0.9) op_words(&c); else op_standalone(&c); }
-            else if (u < 0.28) op_start(&c); else if (u < 0.29) op_reinit_config(&c); else if (u < 0.30) op_logfile(&c); else if (u < 0.32) op_mllr(&c); else if (u < 0.35) op_poll(&c); else if (u < 0.5) op_grammar(&c); else if (u < 0.6) op_words(&c); else if (u < 0.9) op_query(&c);
+            else if (u < 0.275) op_start(&c); else if (u < 0.29) op_reinit_config(&c); else if (u < 0.30) op_logfile(&c); else if (u < 0.32) op_mllr(&c); else if (u < 0.35) op_poll(&c); else if (u < 0.5) op_grammar(&c); else if (u < 0.6) op_words(&c); else if (u < 0.9) op_query(&c);
             else if (u < 0.93) { int rv; drop_iters(&c); vh_ctx("decoder_reinit"); rv = decoder_reinit(c.d, NULL); LOG(&c, "reinit(NULL)=%d ", rv); expect(&c, rv == 0, "reinit_null_fails", "decoder_reinit(d, NULL) returned %d", rv); c.have_gram = 0; c.st = ST_IDLE; vh_count("reinits", 1); }
             else op_standalone(&c);
         }
